@@ -6,6 +6,11 @@ Fuel-indexed evaluator for the core statement vocabulary (C05, C17): mirrors `ev
 * Environments: `Env` cells become a store of frames (`State.frames`); a frame has its variables and
   its parent frame id (`Env::with_parent`).  Closures hold the id of their defining frame
   (`Rc<RefCell<Env>>`): they capture VARIABLES, not values.
+* Type annotations on lambda parameters (`\x: int -> …`): type values are the builtins named in
+  `typeNames` (`Obj::Func(Func::Type(_))`; `null` also denotes the null type, `to_type`); the annotation
+  expressions are evaluated at CALL time (`Closure::run` → `eval_lvalue`), `hasType` is `is_type`, and the
+  declared type stays attached to the variable (`Frame.tys`, the `ObjType` stored by `Env::insert`) so
+  that later assignments are checked too (`assign_respecting_type`).
 * Non-local exits are the four `NErr` variants: `Res.brk`, `cont`, `ret`, `thrown`.
 * The evaluator is total by structural recursion on `fuel`; `Res.fuelOut` means "not enough fuel".
   Theorems/C05.lean proves fuel monotonicity, so no statement is bounded by the fuel.
@@ -38,6 +43,9 @@ inductive Res where
 structure Frame where
   vars : List (String × Val)
   parent : Option Nat
+  /-- declared types (`Env::insert(key, ty, val)`): only annotated lambda parameters have an entry, every
+  other variable of the vocabulary is declared with `ObjType::Any` -/
+  tys : List (String × Val) := []
   deriving Inhabited
 
 structure State where
@@ -117,6 +125,36 @@ end
 
 def b2v (b : Bool) : Val := .int (if b then 1 else 0)
 
+/-! ### types (`ObjType`) -/
+
+/-- the type names of the vocabulary: global variables holding `Obj::Func(Func::Type(t))` -/
+def typeNames : List String := ["int", "number", "str", "list", "dict", "func", "type", "anything", "nulltype"]
+
+/-- `to_type` succeeds: a type value, or `null` (which denotes the null type) -/
+def isTypeVal : Val → Bool
+  | .null => true
+  | .builtin n => typeNames.contains n
+  | _ => false
+
+/-- `is_type(to_type(t), v)` for a `t` with `isTypeVal t`, on the value kinds of the vocabulary (the only
+numbers are integers; the value of an interpreter-raised error is its message, a string; types are
+functions) -/
+def hasType (t v : Val) : Bool :=
+  match t, v with
+  | .null, .null => true
+  | .builtin "nulltype", .null => true
+  | .builtin "int", .int _ => true
+  | .builtin "number", .int _ => true
+  | .builtin "str", .str _ => true
+  | .builtin "str", .err => true
+  | .builtin "list", .list _ => true
+  | .builtin "dict", .dict _ => true
+  | .builtin "func", .closure .. => true
+  | .builtin "func", .builtin _ => true
+  | .builtin "type", .builtin n => typeNames.contains n
+  | .builtin "anything", _ => true
+  | _, _ => false
+
 /-- outcome of a builtin operation -/
 inductive OpRes where
   | ok (v : Val)
@@ -179,7 +217,14 @@ def lookupVar (frames : Array Frame) : Nat → Nat → String → Option Val
         | some p => lookupVar frames fuel p x
         | none => none
 
-/-- `Env::modify_existing_var`: assign to the nearest enclosing declaration, `none` if undeclared -/
+/-- the declared type of `x` in a frame admits `v` (no entry: declared with `ObjType::Any`) -/
+def typeOk (tys : List (String × Val)) (x : String) (v : Val) : Bool :=
+  match lookupIn tys x with
+  | some t => hasType t v
+  | none => true
+
+/-- `assign_respecting_type` over `Env::modify_existing_var`: assign to the nearest enclosing
+declaration; `none` (the statement raises) if undeclared or if the value is not of the declared type -/
 def assignVar (frames : Array Frame) : Nat → Nat → String → Val → Option (Array Frame)
   | 0, _, _, _ => none
   | fuel + 1, env, x, v =>
@@ -187,10 +232,27 @@ def assignVar (frames : Array Frame) : Nat → Nat → String → Val → Option
     | none => none
     | some fr =>
       match lookupIn fr.vars x with
-      | some _ => some (frames.setIfInBounds env { fr with vars := setIn fr.vars x v })
+      | some _ =>
+        if typeOk fr.tys x v then some (frames.setIfInBounds env { fr with vars := setIn fr.vars x v })
+        else none
       | none =>
         match fr.parent with
         | some p => assignVar frames fuel p x v
+        | none => none
+
+/-- `drop_lhs` (`Env::modify_ident` with `set_index(ptr, [], None, true)`): the slot of the nearest
+enclosing declaration is overwritten with null WITHOUT a type check ("overriding type!!") -/
+def dropVar (frames : Array Frame) : Nat → Nat → String → Option (Array Frame)
+  | 0, _, _ => none
+  | fuel + 1, env, x =>
+    match frames[env]? with
+    | none => none
+    | some fr =>
+      match lookupIn fr.vars x with
+      | some _ => some (frames.setIfInBounds env { fr with vars := setIn fr.vars x .null })
+      | none =>
+        match fr.parent with
+        | some p => dropVar frames fuel p x
         | none => none
 
 /-- `Env::insert` with `allow_redeclaration = false`: declare in the CURRENT frame, refuse if the
@@ -292,7 +354,10 @@ def cataOfBuiltin (name : String) : Option Cata :=
 /-- operators are ordinary functions: their names denote builtins that can be called directly -/
 def opNames : List String := ["+", "-", "*", "//", "%", "==", "!=", "<", "<=", ">", ">=", "$", "++", "append"]
 
-def builtinNames : List String := ["first", "last", "sum", "max", "min", "count", "len", "print"] ++ opNames
+/-- (calling a type — `int("3")`, `str(x)`, `list(s)` … — is a conversion; conversions are outside the
+modelled vocabulary, the generator never calls a type value) -/
+def builtinNames : List String :=
+  ["first", "last", "sum", "max", "min", "count", "len", "print"] ++ opNames ++ typeNames
 
 /-- insert a key/value into an association list (`HashMap::insert` up to order) -/
 def dictInsert (kvs : List (Val × Val)) (k v : Val) : List (Val × Val) :=
@@ -359,6 +424,44 @@ def bindArgs (params : List Param) (args : List Val) (defaults : List Val) : Opt
       some (List.zip ((params.take si).map Param.name) before
             ++ [(((params.drop si).headD default).name, Val.list mid)]
             ++ List.zip ((params.drop (si + 1)).map Param.name) after)
+
+/-- the scan at the head of `assign_all` for a parameter list receiving `nargs` arguments: the defaults
+"in play" (a default at position `i` is in play when `nargs ≤` the number of non-splat positions before
+it); `none`: two splats, or a parameter without default after a default in play (both raise).
+`i`: position, `splatSeen`, `acc`: defaults in play so far. -/
+def defaultsInPlay (nargs : Nat) : List Param → Nat → Bool → List Expr → Option (List Expr)
+  | [], _, _, acc => some acc
+  | p :: ps, i, splatSeen, acc =>
+    if p.isSplat then
+      if splatSeen then none else defaultsInPlay nargs ps (i + 1) true acc
+    else
+      match p.dflt with
+      | some d =>
+        defaultsInPlay nargs ps (i + 1) splatSeen
+          (if nargs ≤ (if splatSeen then i - 1 else i) then acc ++ [d] else acc)
+      | none => if acc.isEmpty then defaultsInPlay nargs ps (i + 1) splatSeen acc else none
+
+/-- per parameter, the value its annotation evaluated to (`tvs`: the values of the annotation
+expressions, in parameter order) -/
+def annSlots : List Param → List Val → List (Option Val)
+  | [], _ => []
+  | p :: ps, tvs =>
+    match p.ann, tvs with
+    | some _, t :: tvs => some t :: annSlots ps tvs
+    | _, tvs => none :: annSlots ps tvs
+
+/-- `assign_all_basic` over the parameters: bind left to right; an annotated parameter first converts
+its annotation (`to_type`: raises if it is not a type), then `insert_declare` checks the argument
+(`is_type`: raises on mismatch) and stores value and declared type.  Returns (all bound?, variables
+bound so far, their declared types). -/
+def checkBinds : List (Option Val) → List (String × Val) → List (String × Val) → List (String × Val) →
+    Bool × List (String × Val) × List (String × Val)
+  | _, [], vars, tys => (true, vars, tys)
+  | some t :: slots, (x, v) :: rest, vars, tys =>
+    if isTypeVal t && hasType t v then checkBinds slots rest (vars ++ [(x, v)]) (tys ++ [(x, t)])
+    else (false, vars, tys)
+  | _ :: slots, (x, v) :: rest, vars, tys => checkBinds slots rest (vars ++ [(x, v)]) tys
+  | [], (x, v) :: rest, vars, tys => checkBinds [] rest (vars ++ [(x, v)]) tys
 
 mutual
 
@@ -495,7 +598,7 @@ mutual
         | some old =>
           match eval fuel st env rhs with
           | (.val v, st) =>
-            match assignVar st.frames (st.frames.size + 1) env x .null with
+            match dropVar st.frames (st.frames.size + 1) env x with
             | none => (.thrown .err, st)
             | some fs =>
               let st := { st with frames := fs }
@@ -721,25 +824,38 @@ mutual
       match f with
       | .closure params body cenv =>
         let (st, ee) := newFrame st cenv
-        -- defaults in play are evaluated in the new scope BEFORE any parameter is bound
-        let nNonSplat := (params.filter (fun p => !p.isSplat)).length
-        let missing := nNonSplat - args.length
-        let defaultExprs := ((params.filter (fun p => !p.isSplat)).drop (nNonSplat - missing)).map Param.dflt
-        if defaultExprs.any Option.isNone then (.thrown .err, st)
-        else
-          match evalList fuel st ee (defaultExprs.filterMap id) with
-          | (.stop r, st) => (r, st)
-          | (.ok dvs, st) =>
-            match bindArgs params args dvs with
-            | none => (.thrown .err, st)
-            | some binds =>
-              match st.frames[ee]? with
-              | none => (.thrown .err, st)
-              | some fr =>
-                let st := { st with frames := st.frames.setIfInBounds ee { fr with vars := binds } }
-                match eval fuel st ee body with
-                | (.ret v, st) => (.val v, st)
-                | r => r
+        -- `eval_lvalue` of every parameter: the type annotations are evaluated first, left to right, in
+        -- the new (still empty) scope; any exit of an annotation (also `return`) leaves the call
+        match evalList fuel st ee (params.filterMap Param.ann) with
+        | (.stop r, st) => (r, st)
+        | (.ok tvs, st) =>
+          -- `assign_all`: the scan for the defaults in play; without a splat the arity is checked BEFORE
+          -- the defaults are evaluated, with a splat after (inside `bindArgs`); the defaults in play are
+          -- evaluated in the new scope before any parameter is bound
+          match defaultsInPlay args.length params 0 false [] with
+          | none => (.thrown .err, st)
+          | some inPlay =>
+            if !params.any Param.isSplat && params.length != args.length + inPlay.length then (.thrown .err, st)
+            else
+              match evalList fuel st ee inPlay with
+              | (.stop r, st) => (r, st)
+              | (.ok dvs, st) =>
+                match bindArgs params args dvs with
+                | none => (.thrown .err, st)
+                | some binds =>
+                  match st.frames[ee]? with
+                  | none => (.thrown .err, st)
+                  | some fr =>
+                    -- parameters are bound one by one, each annotated one after its type check; a failing
+                    -- check raises with the earlier parameters bound, the body does not run
+                    match checkBinds (annSlots params tvs) binds [] [] with
+                    | (false, vars, tys) =>
+                      (.thrown .err, { st with frames := st.frames.setIfInBounds ee { fr with vars := vars, tys := tys } })
+                    | (true, vars, tys) =>
+                      let st := { st with frames := st.frames.setIfInBounds ee { fr with vars := vars, tys := tys } }
+                      match eval fuel st ee body with
+                      | (.ret v, st) => (.val v, st)
+                      | r => r
       | .builtin "print" =>
         ({ st with out := (joinWith " " (args.map Val.display)) :: st.out } |> fun st => (.val .null, st))
       | .builtin "len" =>
